@@ -131,6 +131,11 @@ def structure_rules(ctx):
         rep.analysed(mu)
 
         def m_eq(I_, f, st, t, args, depth):
+            # `last == Some(name)` on the Options decides by shape first; only a comparison of two names is enumerated
+            r = kind.eq_descend(I_.deref_value(st, args[0]), I_.deref_value(st, args[1]))
+            if r[0] == "const":
+                yield kc(r[1]), None, ()
+                return
             yield kc(True), None, ((("same-name",), "T"),)
             yield kc(False), None, ((("same-name",), "F"),)
         I = kind.Interp(F, models={"std::cmp::PartialEq::eq": m_eq})
